@@ -24,6 +24,7 @@ import (
 
 	"github.com/pingcap/kvproto/pkg/metapb"
 	"github.com/tikv/pd/server/core"
+	"verif/harness/lib/kvx"
 )
 
 // surround writes the unrelated keys a real pd keeps next to the scanned ranges (cluster meta at
@@ -1418,5 +1419,97 @@ func (x *runner) runEtcdCancel(sp Spec) {
 	if res2.Err != nil || res2.Loop != nil || res2.PdPanic != "" || res2.Budget != nil || res2.Aborted {
 		return
 	}
+	x.pruneKeySuffix = ":retry-after-failed-delete"
 	x.checkPruned(sp, b, "LoadRegions", res2, must, cache, reported, und, lim)
+	x.pruneKeySuffix = ""
+}
+
+// runRetryDelete: the pruning load fails because a DELETE of an overlapped region fails (the cache has
+// already been changed by then), and the load is retried with the same cache on the same Storage, as
+// LoadClusterInfo does after a failed LoadRegionsOnce of the region syncer. sp.N == 2 is the directed
+// minimal world: two overlapping regions of equal version.
+func (x *runner) runRetryDelete(sp Spec) {
+	r := x.r
+	rng := rand.New(rand.NewSource(sp.Seed))
+	b, err := newBackend(sp.Backend)
+	if err != nil {
+		r.Inconclusive("backend %s: %v", sp.Backend, err)
+		return
+	}
+	defer b.close()
+	var world []*metapb.Region
+	if sp.N == 2 {
+		world = []*metapb.Region{
+			{Id: 1, StartKey: []byte("a"), EndKey: []byte("c"), RegionEpoch: &metapb.RegionEpoch{ConfVer: 1, Version: 8}, Peers: []*metapb.Peer{{Id: 11, StoreId: 1}}},
+			{Id: 2, StartKey: []byte("b"), EndKey: []byte("d"), RegionEpoch: &metapb.RegionEpoch{ConfVer: 1, Version: 8}, Peers: []*metapb.Peer{{Id: 12, StoreId: 1}}},
+		}
+	} else {
+		world = genWorld(rng, genIDs(rng, sp.IDGen, sp.N), "small")
+	}
+	must := map[uint64]item{}
+	for _, reg := range world {
+		if err := b.st.SaveRegion(reg); err != nil {
+			r.Inconclusive("SaveRegion: %v", err)
+			return
+		}
+		bs, _ := reg.Marshal()
+		must[reg.Id] = item{Bytes: bs}
+		r.Count("ops_save_region", 1)
+	}
+	cache := core.NewBasicCluster()
+	reported := map[uint64]bool{}
+	var trace []string
+	cb := func(ri *core.RegionInfo) []*core.RegionInfo {
+		ov := cache.CheckAndPutRegion(ri)
+		ev := fmt.Sprintf("deliver %d ->", ri.GetID())
+		for _, o := range ov {
+			reported[o.GetID()] = true
+			ev += fmt.Sprintf(" delete %d", o.GetID())
+		}
+		if len(trace) < 40 {
+			trace = append(trace, ev)
+		}
+		return ov
+	}
+	mode := kvx.FailBefore
+	if sp.Fault == "lost-ack" {
+		mode = kvx.LostAck
+	}
+	b.kvx.FailWrite(int64(1+rng.Intn(3)), mode) // the k-th storage write from now = the k-th delete of the load
+	if sp.N == 2 {
+		b.kvx.FailWrite(1, mode)
+	}
+	res := x.loadRegions(b, "LoadRegionsOnce", len(must), cb)
+	inj := b.kvx.Injected()
+	b.kvx.ResetFaults()
+	r.Count("delete_faults_injected_inside_a_pruning_load", inj)
+	extra := map[string]interface{}{"phase": "pruning load in which one delete fails (" + sp.Fault + ")", "calls": trace}
+	x.judgeLoad(sp, "regions", res, must, nil, inj > 0, extra)
+	if res.Loop != nil || res.PdPanic != "" || res.Budget != nil || res.Aborted {
+		return
+	}
+	if res.Err != nil {
+		r.Count("prune_loads_failed_on_a_delete_then_retried", 1)
+	}
+	trace = append(trace, fmt.Sprintf("first LoadRegionsOnce returned %v; retry with the same cache", res.Err))
+	now, err := b.rawRegions()
+	if err != nil {
+		r.Inconclusive("raw scan: %v", err)
+		return
+	}
+	must2 := map[uint64]item{}
+	for id := range now {
+		if it, ok := must[id]; ok {
+			must2[id] = it
+		}
+	}
+	res2 := x.loadRegions(b, "LoadRegionsOnce", len(must2), cb)
+	extra["phase"], extra["calls"] = "retry with the same cache on the same Storage", trace
+	und := x.judgeLoad(sp, "regions", res2, must2, nil, false, extra)
+	if res2.Err != nil || res2.Loop != nil || res2.PdPanic != "" || res2.Budget != nil || res2.Aborted {
+		return
+	}
+	x.pruneKeySuffix = ":retry-after-failed-delete"
+	x.checkPruned(sp, b, "LoadRegionsOnce", res2, must, cache, reported, und, 0)
+	x.pruneKeySuffix = ""
 }
